@@ -209,13 +209,14 @@ def bigStore (log2 : Nat) (b : Buckets) (prime mi wi : Nat) : Buckets :=
 
 /-! ### `PreSieve::preSieve` -/
 
-/-- buffer `k` as bytes: entry `j` is byte `j` of the generated little-endian number -/
-def preTabBytes (k : Nat) : Bytes :=
-  let t := Gen.psPreTabs.getD k (0, 0, [])
+/-- buffer `k` as bytes: entry `j` is byte `j` of the generated little-endian number (the unit argument keeps the big
+    literals out of the start-up code of the driver) -/
+def preTabBytes (u : Unit) (k : Nat) : Bytes :=
+  let t := (Gen.psPreTabs u).getD k (0, 0, [])
   (Array.range t.2.1).map (byteOfNat t.1)
 
 /-- the 16 buffers -/
-def preTabsDecoded : Array Bytes := (Array.range Gen.psPreTabs.length).map preTabBytes
+def preTabsDecoded (u : Unit) : Array Bytes := (Array.range (Gen.psPreTabs u).length).map (preTabBytes u)
 
 /-- `presieve1` (store, `andOld = false`) / `presieve2` (AND into the sieve, `andOld = true`) over `n` bytes -/
 def preKernel (andOld : Bool) (t0 t1 t2 t3 : Bytes) (p0 p1 p2 p3 off : Nat) : Nat → Nat → Bytes → Bytes
